@@ -96,6 +96,94 @@ def run_cases(res, cases, tag):
             res.diff("needed_rules vs Lean minimize model", hist, model, needed)
 
 
+def key_findable(searcher, key):
+    """does replaying the pack (and the empty strategy) on the key's own classes yield a rule, or a reverse of a rule, with this
+    forest key? (what ForestRuleExtractor._find_rule searches)"""
+    from comb_spec_searcher.exception import StrategyDoesNotApply
+    from comb_spec_searcher.strategies.strategy import AbstractStrategy, EmptyStrategy, StrategyFactory
+
+    cdb = searcher.classdb
+    for lbl in (key.parent,) + tuple(key.children):
+        c = cdb.get_class(lbl)
+        for st in [EmptyStrategy()] + list(searcher.strategy_pack):
+            items = list(st(c)) if isinstance(st, StrategyFactory) else [st]
+            for it in items:
+                try:
+                    r = it(c) if isinstance(it, AbstractStrategy) else it
+                except StrategyDoesNotApply:
+                    continue
+                cands = [r]
+                if r.is_reversible():
+                    cands += [r.to_reverse_rule(i) for i in range(len(r.children))]
+                for rr in cands:
+                    try:
+                        if rr.forest_key(cdb.get_label, cdb.is_empty) == key:
+                            return True
+                    except Exception:  # noqa: BLE001
+                        pass
+    return False
+
+
+def search_worker(cfg):
+    """a real forest search; every needed key must come back as a rule of the pack with that very key"""
+    import re
+    import signal
+
+    import speccheck
+    import specrun
+    from comb_spec_searcher import CombinatorialSpecificationSearcher
+    from comb_spec_searcher.exception import SpecificationNotFound
+
+    signal.signal(signal.SIGALRM, speccheck._alarm)
+    signal.alarm(40)
+    out = {"cfg": cfg, "problems": [], "keys": 0, "status": "?"}
+    try:
+        specrun.quiet()
+        root, pack, db = specrun.build(cfg)
+        s = CombinatorialSpecificationSearcher(root, pack, ruledb=db, expand_verified=cfg["expand_verified"])
+        specrun.quiet()
+        try:
+            for _ in range(400):
+                wp = next(s.classqueue)
+                if s.expand_verified or not s.ruledb.is_verified(wp.label):
+                    s._expand(s.classdb.get_class(wp.label), wp.label, wp.strategies, wp.inferral)
+                if s.ruledb.has_specification():
+                    break
+        except StopIteration:
+            pass
+        if not s.ruledb.has_specification():
+            out["status"] = "nospec"
+            return out
+        out["status"] = "spec"
+        from comb_spec_searcher.rule_db.forest import ForestRuleExtractor
+
+        ex = ForestRuleExtractor(s.start_label, s.ruledb, s.classdb, s.strategy_pack)
+        needed = list(ex.needed_rules)
+        out["keys"] = len(needed)
+        if len(s.ruledb.table_method._rules) <= 45:  # the Lean side re-runs the fixed point for every test: keep it small
+            out["line"] = f"{s.start_label} {fmt(list(s.ruledb.table_method._rules))} {fmt(needed)}"
+        out["needed"] = fmt(needed)
+        cdb = s.classdb
+        for k in needed:
+            try:
+                r = ex._find_rule(k)
+            except RuntimeError as exc:
+                sig = "cannot-find-rule-for-key" if key_findable(s, k) else "key-not-findable-from-its-own-classes"
+                out["problems"].append((sig, f"{sk(k)}: {str(exc)[:120]}".replace("\n", " ")))
+                continue
+            if r.forest_key(cdb.get_label, cdb.is_empty) != k:
+                out["problems"].append(("rule-found-has-another-key", sk(k)))
+    except speccheck.Timeout:
+        out["status"] = "timeout"
+    except Exception as exc:  # noqa: BLE001
+        import specrun as _s
+
+        out["problems"].append(("forest-search-raises", _s.exc_info(exc)))
+    finally:
+        signal.alarm(0)
+    return out
+
+
 def run(tier, seed, factor=1):
     res = common.Result("C11")
     res.rule = ("random U-int key universes (1-6 classes, 1-12 keys, all four buckets, shifts -3..3, sometimes two keys with equal "
@@ -119,6 +207,38 @@ def run(tier, seed, factor=1):
             rnd.shuffle(r2)
             cases.append((r2, root))
     run_cases(res, cases, "rand")
+    # universes recorded by real forest searches (with and without reverse rules), key -> concrete rule
+    import speccheck
+    import specrun
+
+    rnd2 = random.Random(seed * 1000003 + 11)
+    cfgs = []
+    for c in speccheck.make_configs(rnd2, common.scale(tier, 150, 2000) * factor):
+        c = dict(c, db="RuleDBForest", iterative=False, smallest=False)
+        cfgs.append(c)
+    souts = specrun.pool_map(search_worker, cfgs)
+    specrun.quiet()
+    lines = [o["line"] for o in souts if "line" in o]
+    lean = common.run_driver("C11", "\n".join(lines) + "\n") if lines else []
+    k = 0
+    for o in souts:
+        res.case(("cfg", repr(sorted(o["cfg"].items()))), nontrivial=o["keys"] >= 3)
+        res.dist["search:" + o["status"]] += 1
+        if "line" in o:
+            res.traces += 1
+            model, _, flags = lean[k].partition(" | ")
+            k += 1
+            fl = dict(x.split("=") for x in flags.split())
+            if fl["ok"] != "1":
+                bad = [kk for kk in ("sub", "prod", "lhs", "closed", "min", "rev") if fl[kk] != "1"]
+                res.fail("extraction-" + "+".join(bad), o["cfg"], {"needed_rules": o["needed"], "clauses": fl})
+            if (model[len("model "):] or "-") != o["needed"]:
+                res.diff("needed_rules vs Lean minimize model (recorded universe)", o["cfg"], model[:300], o["needed"][:300])
+        seen = set()
+        for sig, d in o["problems"]:
+            if sig not in seen:
+                seen.add(sig)
+                res.fail(sig, o["cfg"], d)
     return res
 
 
@@ -138,6 +258,13 @@ def parse_keys(text):
 
 def replay(case):
     inp = case["input"]
+    if "alpha" in inp:
+        o = search_worker(inp)
+        want = case.get("signature")
+        for sig, d in o["problems"]:
+            if want is None or sig == want:
+                return {"signature": sig, "input": inp, "detail": d}
+        return None
     r = common.Result("C11")
     run_cases(r, [(parse_keys(inp["keys"]), inp["root"])], "replay")
     return r.failures[0] if r.failures else None
